@@ -184,6 +184,8 @@ def build_views():
     s.mod = importlib.import_module(s.modname)
     dds.accept_module(s.modname)
     s.x = 1
+    s.internal = "shared_internal"
+    s.moves = 0
     s.committed = {1: None, 2: None}
     s.blobs = set()
     return s
@@ -210,8 +212,19 @@ def apply_views(s, op):
         s.x = 3 - s.x
         s.mod.X = s.x
         return probs
+    if op[0] == "move_internal":
+        # the internal directory is lost and a new, empty one is configured at another place; the data directories stay
+        # (their links dangle until the paths are kept again)
+        if s.moves >= 1:
+            return probs   # one move per history keeps the space finite
+        shutil.rmtree(os.path.join(s.root, "stores", s.internal), ignore_errors=True)
+        s.moves += 1
+        s.internal = f"shared_internal_{s.moves}"   # never a location used before: the old links cannot come back to life
+        s.committed = {1: None, 2: None}
+        s.blobs = set()
+        return probs
     v = op[1]
-    dds.set_store("local", internal_dir=os.path.join(s.root, "stores", "shared_internal"), data_dir=os.path.join(s.root, "stores", f"view{v}"))
+    dds.set_store("local", internal_dir=os.path.join(s.root, "stores", s.internal), data_dir=os.path.join(s.root, "stores", f"view{v}"))
     s.mod.LOG[:] = []
     if op[0] == "keep":
         r = call(lambda: dds.keep("/one", s.mod.one))
@@ -239,10 +252,10 @@ def apply_views(s, op):
 
 
 def key_views(s):
-    return (s.x, tuple(sorted(s.committed.items())), tuple(sorted(s.blobs)), tree(os.path.join(s.root, "stores")))
+    return (s.x, s.internal, tuple(sorted(s.committed.items())), tuple(sorted(s.blobs)), tree(os.path.join(s.root, "stores")))
 
 
-VIEW_OPS = [("keep", 1), ("keep", 2), ("edit",), ("load", 1, "/one"), ("load", 2, "/one"), ("load", 1, "/x/y"), ("load", 2, "/x/y")]
+VIEW_OPS = [("keep", 1), ("keep", 2), ("edit",), ("move_internal",), ("load", 1, "/one"), ("load", 2, "/one"), ("load", 1, "/x/y"), ("load", 2, "/x/y")]
 
 
 def _views_job(items):
